@@ -70,3 +70,18 @@ pub fn payload_of_class(rng: &mut Rng, l: usize, class: u64) -> Vec<u8> {
     }
     p
 }
+
+pub const SPECIAL_CRCS: &[u32] = &[0x000000, 0x000001, 0xFFFFFF, 0x800000, 0x7FFFFF, 0xD30000, 0x00D300, 0x0000D3, 0xD3D3D3, 0x010000, 0x000100, 0xAAAAAA, 0x555555];
+
+/// a valid frame of payload length l (>= 3) whose CRC-24Q is exactly `target` (the last three payload bytes are solved for)
+pub fn frame_with_crc(rng: &mut Rng, l: usize, reserved: u8, target: u32) -> Vec<u8> {
+    assert!(l >= 3);
+    let mut p = rng.bytes(l);
+    let mut prefix = vec![0xD3u8, ((reserved & 0x3F) << 2) | ((l >> 8) as u8 & 3), l as u8];
+    prefix.extend_from_slice(&p[..l - 3]);
+    let tail = crate::crc::tail_for_crc(&prefix, target);
+    p[l - 3..].copy_from_slice(&tail);
+    let f = frame_with_reserved(&p, reserved);
+    debug_assert_eq!(crate::crc::crc24q(&f[..f.len() - 3]), target);
+    f
+}
